@@ -36,7 +36,7 @@ def _run(res, work):
             continue
         seen.add(f["class"])
         res.violation("oracle-failure", "rustc rejects the bindings (or bindgen fails) outside every known region: %s" % f["class"], f["detail"],
-                      {"header": f["header"], "flags": f["flags"], "case": f["case"], "seed": res.seed, "tier": res.tier}, found_input=True)
+                      {"header": f["header"], "flags": f["flags"], "case": f["case"], "cpp": f.get("cpp"), "seed": res.seed, "tier": res.tier}, found_input=True)
     if corr and not oracle:
         f = corr[0]
         res.violation("correspondence", "Model/Names.lean no longer matches the implementation (%s): the C01 identifier theorems no longer speak about this code" % f["class"],
@@ -89,14 +89,15 @@ def replay(path):
     if isinstance(inp, dict) and "header" in inp:
         work = tempfile.mkdtemp(prefix="bgverif_c01_replay_")
         try:
-            cpp = ("c++" in " ".join(inp.get("flags", []))) or "class " in inp["header"] or "namespace " in inp["header"] or "template" in inp["header"]
+            cpp = inp.get("cpp") if inp.get("cpp") is not None else ("--enable-cxx-namespaces" in inp.get("flags", [])) or "using " in inp["header"] or ("c++" in " ".join(inp.get("flags", []))) or "class " in inp["header"] or "namespace " in inp["header"] or "template" in inp["header"]
             h = os.path.join(work, "replay.hpp" if cpp else "replay.h")
             open(h, "w").write(inp["header"])
             common.cargo_build_cli()
             cmd = [common.bindgen_cli(), h] + list(inp.get("flags", [])) + ["--"] + (["-x", "c++", "-std=c++14"] if cpp else [])
-            rc, out = common.sh(cmd)
             b = os.path.join(work, "b.rs")
-            open(b, "w").write(out)
+            rc, out = common.sh(cmd[:2] + ["-o", b] + cmd[2:])
+            if rc != 0:
+                print("bindgen:", out[-2000:])
             ed = "2021"
             fl = inp.get("flags", [])
             if "--rust-edition" in fl:
